@@ -309,6 +309,16 @@ class VLoop(asyncio.SelectorEventLoop):
     def time(self) -> float:
         return self.ctl.now
 
+    pending_at_close = None
+
+    def close(self):
+        if not self.is_closed() and self.pending_at_close is None:
+            try:
+                self.pending_at_close = [repr(t)[:240] for t in asyncio.all_tasks(self) if not t.done()]
+            except Exception:  # noqa: BLE001
+                self.pending_at_close = []
+        super().close()
+
     def release(self):
         """Stop controlling (used before shutdown so that mosaik's own
         ``loop.stop(); loop.run_forever(); loop.close()`` works normally)."""
